@@ -603,5 +603,8 @@ func bytesEqTerm(a, b []value) value {
 		have = true
 	}
 	flush()
+	if !acc.IsConst() && G != nil {
+		G.noteTokenEq(a, b, acc)
+	}
 	return symBool(acc)
 }
